@@ -129,7 +129,10 @@ class Url:
         split_at = raw.split(AT, 1)
         username, password = None, None
         if len(split_at) == 2:
-            username, password = split_at[0].split(COLON)
+            # Password is optional within userinfo
+            userinfo = split_at[0].split(COLON, 1)
+            username = userinfo[0]
+            password = userinfo[1] if len(userinfo) == 2 else None
         parts = split_at[-1].split(COLON, 2)
         num_parts = len(parts)
         port: Optional[int] = None
@@ -148,8 +151,8 @@ class Url:
                 COLON.join(last_token[:-1])
         except ValueError:
             # If unable to convert last part into port,
-            # treat entire data as host
-            host, port = raw, None
+            # treat entire data (sans userinfo) as host
+            host, port = split_at[-1], None
         # patch up invalid ipv6 scenario
         rhost = host.decode('utf-8')
         if COLON.decode('utf-8') in rhost and \
